@@ -1,9 +1,116 @@
-/- line protocol stub for component `Rwp` (filled in by the component's owner) -/
+import Tulz.Model.Rwp
+import Tulz.Drv.Util
+/-
+  Lock-step replay of an observed execution of rwp::Resource on the model (DESIGN.md 5.3).
+  The harness reports one line per completed critical section (`cs t`: thread t released m_mutex,
+  `park t`: thread t released it by blocking in m_cv.wait) and per notification (`notify t w…`).
+  Given the thread, the model step is determined (`Rwp.xstep?`); after the step the driver checks that
+  the model agrees with what was observed (parked or not, who was woken, who holds the lock, …).
+-/
 namespace Tulz.Drv.Rwp
+open _root_.Rwp
 
-abbrev State := Unit
-def init : State := ()
+abbrev State := Option XState
+def init : State := none
 
-def step (s : State) (_args : List String) : State × String := (s, "bad-op")
+def parseProg (s : String) : List Kind :=
+  s.toList.filterMap fun c =>
+    if c == 'R' || c == 'r' then some Kind.read
+    else if c == 'W' || c == 'w' || c == 'H' then some Kind.write
+    else none
+
+def pcStr : Pc → String
+  | .idle => "idle"
+  | .waiting k id n => s!"waiting({if k == .read then "R" else "W"},{id},{if n then "notified" else "asleep"})"
+  | .holding k => s!"holding({if k == .read then "R" else "W"})"
+  | .notifying => "notifying"
+
+def isWaiting : Pc → Bool
+  | .waiting _ _ _ => true
+  | _ => false
+
+/-- the threads a `notify_all` finds blocked: parked and not already woken by an earlier notification
+    (an already notified thread is runnable — it is re-acquiring the mutex — and is not reported as woken again) -/
+def isAsleep : Pc → Bool
+  | .waiting _ _ false => true
+  | _ => false
+
+def waitingSet (x : XState) : List Nat :=
+  (List.range x.base.ths.length).filter fun i => match x.base.ths[i]? with | some p => isAsleep p | none => false
+
+def status (x : XState) : String :=
+  " ".intercalate ((List.range x.base.ths.length).map fun i =>
+    s!"{i}:{match x.base.ths[i]? with | some p => pcStr p | none => "?"}/{(x.progs[i]?.getD []).length}")
+
+def step (st : State) (args : List String) : State × String :=
+  match args with
+  | ["init", progs] =>
+    let ps := (progs.splitOn ",").map parseProg
+    (some (xinit ps), "ok")
+  | _ =>
+  match st with
+  | none => (none, "MISMATCH no-init")
+  | some x =>
+    match args with
+    | ["call", t, k] =>
+      match t.toNat? with
+      | none => (st, "bad-op")
+      | some i =>
+        let want := if k == "R" then Kind.read else Kind.write
+        match x.base.ths[i]?, x.progs[i]? with
+        | some .idle, some (k' :: _) => if k' == want then (st, "ok") else (st, s!"MISMATCH call {i}: program says other kind")
+        | p, _ => (st, s!"MISMATCH call {i}: model thread is {(p.map pcStr).getD "?"}")
+    | [ev, t] =>
+      match t.toNat? with
+      | none => (st, "bad-op")
+      | some i =>
+        if ev == "cs" || ev == "park" then
+          match x.base.ths[i]? with
+          | some .notifying => (st, s!"MISMATCH {ev} {i}: model expects the pending notify_all first")
+          | _ =>
+          match xstep? x i with
+          | none => (st, s!"MISMATCH {ev} {i}: no model step for thread in state {((x.base.ths[i]?).map pcStr).getD "?"} | {status x}")
+          | some y =>
+            let parked := match y.base.ths[i]? with | some p => isWaiting p | none => false
+            if (ev == "park") == parked then (some y, "ok")
+            else (some y, s!"MISMATCH {ev} {i}: model thread becomes {((y.base.ths[i]?).map pcStr).getD "?"} | {status y}")
+        else if ev == "ret" then
+          match x.base.ths[i]? with
+          | some (.holding _) => (st, "ok")
+          | p => (st, s!"MISMATCH ret {i}: model thread is {(p.map pcStr).getD "?"}")
+        else if ev == "uret" then
+          match x.base.ths[i]? with
+          | some .idle => (st, "ok")
+          | p => (st, s!"MISMATCH uret {i}: model thread is {(p.map pcStr).getD "?"}")
+        else if ev == "notify" then
+          -- notify with nobody woken
+          match x.base.ths[i]? with
+          | some .notifying =>
+            if waitingSet x == [] then ((xstep? x i), "ok") else (xstep? x i, s!"MISMATCH notify {i}: model wakes {waitingSet x}, observed none")
+          | p => (st, s!"MISMATCH notify {i}: model thread is {(p.map pcStr).getD "?"}")
+        else (st, "bad-op")
+    | "notify" :: t :: woken =>
+      match t.toNat?, parseNats woken with
+      | some i, some ws =>
+        match x.base.ths[i]? with
+        | some .notifying =>
+          if sortNat ws == waitingSet x then (xstep? x i, "ok")
+          else (xstep? x i, s!"MISMATCH notify {i}: model wakes {waitingSet x}, observed {sortNat ws}")
+        | p => (st, s!"MISMATCH notify {i}: model thread is {(p.map pcStr).getD "?"}")
+      | _, _ => (st, "bad-op")
+    | ["end"] =>
+      let done := (List.range x.base.ths.length).all fun i =>
+        match x.base.ths[i]?, x.progs[i]? with
+        | some .idle, some [] => true
+        | _, _ => false
+      let sh := x.base.sh
+      let idle := sh.queue.isEmpty && sh.act == .none && sh.count == 0 && sh.idc == 0 && sh.bound == 0
+      if done && idle then (st, "ok") else (st, s!"MISMATCH end: done={done} idle={idle} | {status x}")
+    | ["stuck"] =>
+      -- the implementation is deadlocked: can the model still move?
+      let movable := (List.range x.base.ths.length).filter fun i => (xstep? x i).isSome
+      (st, if movable.isEmpty then "ok model-stuck-too" else s!"MISMATCH stuck: model can still move threads {movable} | {status x}")
+    | ["status"] => (st, status x)
+    | _ => (st, "bad-op")
 
 end Tulz.Drv.Rwp
